@@ -1111,6 +1111,8 @@ class Interp:
             if (ca < 0) != (cb < 0):
                 q = -q
             return pconst(q)
+        if cb is not None and A and all(v % cb == 0 for v in A.values()):
+            return {m_: v // cb for m_, v in A.items()}       # exact division of the term
         desc = ('tdiv', pfreeze(A), pfreeze(B))
         known = st.atoms.lookup(desc)
         T = st.atoms.get(desc)
